@@ -419,6 +419,20 @@ def unsorted_graphs(model) -> set[str]:
     return bad
 
 
+def dangling_calls(model, local_before: set) -> list[str]:
+    """Calls (anywhere: main graph, subgraphs, bodies of the functions still in the model) whose operator identifier
+    named a model-local function before the pass and has no definition in model.functions now."""
+    import onnx_ir as ir
+    out = []
+    tops = [("main", model.graph)] + [(f"{f.domain}::{f.name}", f) for f in model.functions.values()]
+    for where, gl in tops:
+        for n in ir.traversal.RecursiveGraphIterator(gl):
+            oid = n.op_identifier()
+            if oid in local_before and oid not in model.functions:
+                out.append(f"{where}: {oid[0]}::{oid[1]}")
+    return sorted(set(out))
+
+
 def unnamed_used(model) -> int:
     """Number of values needed by serialization (graph i/o, initializers, node inputs/outputs that are used) without a name."""
     c = 0
@@ -533,7 +547,7 @@ def classify(f: dict) -> str:
     return f["tag"]
 
 
-def oracle_run(spec: dict, pspec, fault: str | None = None, max_rounds: int | None = None) -> dict:
+def oracle_run(spec: dict, pspec, fault: str | None = None, max_rounds: int | None = None, pass_obj=None) -> dict:
     """Run `pspec` repeatedly on the model built from `spec`; return observations + the list of
     contract failures (strings starting with a stable tag).  Public API only."""
     built = build(spec)
@@ -554,7 +568,7 @@ def oracle_run(spec: dict, pspec, fault: str | None = None, max_rounds: int | No
     rounds = []
     first_false = None
     inv0 = invariants(model)
-    p = make_pass(pspec)
+    p = make_pass(pspec) if pass_obj is None else pass_obj      # pass_obj: a REUSED pass instance
     r = 0
     while r < bound:
         before = ser(model)
@@ -563,6 +577,8 @@ def oracle_run(spec: dict, pspec, fault: str | None = None, max_rounds: int | No
         uns_b = unsorted_graphs(model)
         unn_b = unnamed_used(model)
         inv_b = invariants(model) if r else inv0
+        local_b = set(model.functions)
+        dang_b = dangling_calls(model, local_b)
         raised = None
         try:
             with onnx_fault(fault):
@@ -615,6 +631,9 @@ def oracle_run(spec: dict, pspec, fault: str | None = None, max_rounds: int | No
             d = snap_diff(snap_b, snap_a) if same else []
             if d:
                 fail("readonly", "analysis/validation pass changed the model", d)
+        dang_a = dangling_calls(out, local_b)
+        if not dang_b and dang_a:
+            fail("dangling-call", "a call to a model-local function no longer resolves after the pass", dang_a)
         inv_a = invariants(out)
         if inv_a - inv_b:
             fail("invariants", "link consistency broken by the pass", sorted(inv_a - inv_b))
@@ -793,6 +812,28 @@ def gen_spec(rng, rich: bool = True) -> dict:
             g2 = {"name": "unusedfn", "inputs": ["Ux"], "inits": [], "outputs": ["Uy"], "opsets": {"": 20},
                   "nodes": [{"name": "un", "op": "Relu", "ins": ["Ux"], "outs": ["Uy"]}]}
             spec["functions"].append({"domain": "fdom", "name": "Unused", "graph": g2})
+    if spec["functions"]:
+        def fn(name, callee):
+            x, t, y = name + "x", name + "t", name + "y"
+            return {"domain": "fdom", "name": name, "graph": {
+                "name": name + "g", "inputs": [x], "inits": [], "outputs": [y], "opsets": {"": 20, "fdom": 1},
+                "nodes": [{"name": name + "c", "op": callee, "domain": "fdom", "ins": [x], "outs": [t]},
+                          {"name": name + "n", "op": "Neg", "ins": [t], "outs": [y]}]}}
+        r = rng.random()
+        if r < 0.25:                       # an unused function that calls the used one
+            spec["functions"].append(fn("Spare", "F0"))
+        elif r < 0.4:                      # a chain of unused functions ending in the used one
+            spec["functions"].append(fn("Spare2", "Spare"))
+            spec["functions"].append(fn("Spare", "F0"))
+        if rng.random() < 0.3:             # the used function calls a second one (used chain)
+            leaf = {"domain": "fdom", "name": "F1", "graph": {"name": "F1g", "inputs": ["Lx"], "inits": [], "outputs": ["Ly"],
+                                                              "opsets": {"": 20}, "nodes": [{"name": "Ln", "op": "Relu", "ins": ["Lx"], "outs": ["Ly"]}]}}
+            f0 = spec["functions"][0]["graph"]
+            if f0["nodes"]:
+                f0["nodes"].append({"name": "Fcall", "op": "F1", "domain": "fdom", "ins": [f0["outputs"][0]], "outs": ["Fcy"]})
+                f0["outputs"] = ["Fcy"]
+                f0["opsets"]["fdom"] = 1
+                spec["functions"].append(leaf)
     if '"custom"' in json.dumps(spec) and rng.random() < 0.9:
         spec["graph"]["opsets"]["custom"] = 1
     # name perturbations: duplicates and unnamed values
